@@ -47,6 +47,8 @@ type childCfg struct {
 	Skip  []string `json:"skip"` // trigger classes of confirmed wedges / repeated crashers: not re-executed
 	// Concurrent > 0: one round of the concurrent lane (requests per client); Start is the round number
 	Concurrent int `json:"concurrent,omitempty"`
+	// Outage: the database-outage round
+	Outage bool `json:"outage,omitempty"`
 }
 
 const (
@@ -235,6 +237,23 @@ func concurrentLane(c *run.Ctx) {
 	perClient := c.Pick(25, 120)
 	var wg sync.WaitGroup
 	sem := make(chan struct{}, c.Pick(3, 4))
+	// the outage round runs beside them (it spends half a minute waiting for the registry's ping interval)
+	wg.Add(1)
+	go func() {
+		defer wg.Done()
+		out := c.RunChild(run.ChildSpec{Prop: "C12", Name: "fuzz", Cfg: childCfg{Start: 2000000, N: 1, Lane: 200, Outage: true}, Timeout: 10 * time.Minute, MemKB: memKB})
+		if !out.Completed && out.Exit != exitStall {
+			if out.TimedOut {
+				c.Undecided("child watchdog expired in the outage round")
+			} else if out.OpenIdx >= 0 {
+				var open openCase
+				json.Unmarshal(out.OpenCase, &open)
+				reportDeath(c, out, open)
+			} else {
+				c.Undecided(fmt.Sprintf("child of the outage round ended (exit %d) outside the round", out.Exit))
+			}
+		}
+	}()
 	for rd := 0; rd < rounds; rd++ {
 		wg.Add(1)
 		go func(rd int) {
@@ -246,6 +265,7 @@ func concurrentLane(c *run.Ctx) {
 	}
 	wg.Wait()
 	c.Floor("requests answered while other requests were in flight", rounds*perClient*4, 0)
+	c.Floor("requests answered around a database outage", 5, 0)
 }
 
 func runConcurrentRound(c *run.Ctx, rd, perClient int) {
@@ -584,6 +604,10 @@ func Child(c *run.Ctx, name string) {
 	}
 	if cfg.Concurrent > 0 {
 		childConcurrent(c, cfg)
+		return
+	}
+	if cfg.Outage {
+		childOutage(c, cfg)
 		return
 	}
 	f := &fuzzer{c: c, lane: cfg.Lane, plog: &panicLog{}}
